@@ -184,7 +184,10 @@ func canonMatrix(m *docgen.N) *docgen.N {
 // canonSigned is the harness's own notion of "the signed content".
 func canonSigned(step *docgen.N, repo string, penv map[string]string, signedVars []string) string {
 	c := docgen.Map()
-	cmd := step.Get("command")
+	cmd := step.Get("commands") // `commands` wins over `command` when both are given
+	if cmd == nil {
+		cmd = step.Get("command")
+	}
 	if cmd == nil {
 		cmd = docgen.Str("")
 	}
@@ -405,9 +408,13 @@ func stepMutations(step *docgen.N) []stepMut {
 			}
 			if len(path) > 0 {
 				add("map-add@"+ps, withSeq(step, path, func(m *docgen.N) { m.Set("zz_new", docgen.Str("new")) }))
+				if len(n.Vals) > 0 && n.Vals[0].K != docgen.KStr {
+					// a new entry shaped like its siblings (e.g. another matrix dimension)
+					add("map-add-like-sibling@"+ps, withSeq(step, path, func(m *docgen.N) { m.Set("zz_sibling", n.Vals[0].Clone()) }))
+				}
 			}
 			for i, k := range n.Keys {
-				if len(path) == 0 && !(k == "command" || k == "env" || k == "plugins" || k == "matrix") {
+				if len(path) == 0 && !(k == "command" || k == "commands" || k == "env" || k == "plugins" || k == "matrix") {
 					continue // unsigned fields of the step
 				}
 				walk(n.Vals[i], append(append([]any{}, path...), k))
@@ -557,6 +564,13 @@ plugins: [cache#v2]
 matrix: [a, b]
 env: {}
 `, map[string]string{"DEPLOY": "1"}, "repo"},
+	{"mixed-setup", `
+command: build
+matrix:
+  setup: {"": [build, test], os: [linux, darwin]}
+  adjustments:
+    - with: {"": lint, os: linux}
+`, map[string]string{"CI": "true"}, "repo"},
 	{"adjust-only", `
 commands: [one, two]
 matrix:
@@ -568,19 +582,16 @@ matrix:
 `, map[string]string{"E": ""}, ""},
 }
 
-// sigInitialTree parses the step and returns its JSON normal form as a tree.
+// sigInitialTree returns the step as written (the input tree, not the library's own normal form, so that a
+// marshalling defect cannot hide content from the mutation engine); it also checks that the library accepts it
+// as a command step.
 func sigInitialTree(in sigInitial) (*docgen.N, error) {
-	p, err := pipeline.Parse(strings.NewReader("steps:\n  - " + strings.ReplaceAll(strings.TrimSpace(in.Step), "\n", "\n    ") + "\n"))
+	tree, err := docgen.FromYAML([]byte(in.Step))
 	if err != nil {
 		return nil, err
 	}
-	cs, ok := p.Steps[0].(*pipeline.CommandStep)
-	if !ok {
-		return nil, fmt.Errorf("initial %s is %T", in.Name, p.Steps[0])
+	if _, err := stepFromTree(tree); err != nil {
+		return nil, fmt.Errorf("initial %s: %w", in.Name, err)
 	}
-	b, err := json.Marshal(cs)
-	if err != nil {
-		return nil, err
-	}
-	return docgen.FromJSON(b)
+	return tree, nil
 }
